@@ -92,7 +92,9 @@ def generate(rng, tier, shard, nshards):
         form, shape = rng.choice(FORMS)
         yield {'lane': lane, 'region': region, 'history': rng.choice([0, 0, 0, 1, 3]),
                'q': {'kind': rng.choice(QKINDS), 'form': form, 'shape': shape, 'dtype': rng.choice(DTYPES),
-                     'n': rng.choice([7, 33, 120, 400]), 'rs': rng.randrange(2 ** 31)}}
+                     'n': rng.choice([7, 33, 120, 400]), 'rs': rng.randrange(2 ** 31),
+                     # x and y are two arrays: a quarter of the queries type them differently
+                     'dtype_y': rng.choice(DTYPES + ['>f8']) if rng.random() < 0.25 else None}}
 
 
 def region_scale(region):
@@ -170,7 +172,13 @@ def make_queries(region, q):
         x, y = np.round(x), np.round(y)
         lim = np.iinfo(dt).max // 2
         x, y = np.clip(x, -lim, lim), np.clip(y, -lim, lim)
-    x, y = x.astype(dt), y.astype(dt)
+    x = x.astype(dt)
+    dty = np.dtype(q.get('dtype_y') or q['dtype'])
+    if dty != dt:
+        if dty.kind == 'i':
+            lim = np.iinfo(dty).max // 2
+            y = np.clip(np.round(y), -lim, lim)
+    y = y.astype(dty)
     form = q['form']
     if form == 'scalar':
         xs, ys = x[0].item(), y[0].item()
